@@ -3,15 +3,15 @@
 # Confirms a seeded change in its scratch worktree /tmp/seed/<Cxx>/wt: (1) demo passes on the clean tree,
 # (2) demo fails with the change, (3) the existing suite passes with the change (without the demo).
 id="$1"; m="$2"; demo="$3"
-wt=/tmp/seed/$id/wt; out=/tmp/seed/$id/out
+wt=${SEEDROOT:-/tmp/seed}/$id/wt; out=${SEEDROOT:-/tmp/seed}/$id/out
 export CARGO_NET_OFFLINE=true
 cd "$wt" || exit 2
 clean() { git checkout -q -- . && git clean -fdq -e target; }
 clean
 git apply "$out/$m.demo.diff" || { echo "demo does not apply"; exit 2; }
-echo "== demo on clean tree"; ( eval "timeout 900 $demo" ) > "$out/$m.verify_clean.log" 2>&1; c1=$?
+echo "== demo on clean tree"; timeout 900 bash -c "$demo" > "$out/$m.verify_clean.log" 2>&1; c1=$?
 git apply "$out/$m.patch.diff" || { echo "patch does not apply"; clean; exit 2; }
-echo "== demo with change"; ( eval "timeout 900 $demo" ) > "$out/$m.verify_mut.log" 2>&1; c2=$?
+echo "== demo with change"; timeout 900 bash -c "$demo" > "$out/$m.verify_mut.log" 2>&1; c2=$?
 clean
 git apply "$out/$m.patch.diff"
 echo "== suite with change"; timeout 3000 cargo nextest run --workspace --no-fail-fast --test-threads 8 --offline > "$out/$m.verify_suite.log" 2>&1; c3=$?
